@@ -108,7 +108,7 @@ def rejoin (domain suffix : Str) : Str :=
 suffix_trie.py walks once the trailing dots are stripped) -/
 abbrev lowerHostname (netloc : Str) : Str := lower (pyHostname netloc)
 
-/-- the host the suffix-aware stems spell (since FX-C12-EMPTYLABELS), for the hostname `hn` and the
+/-- the host the suffix-aware stems spell (since FX-C12-ed8ae90), for the hostname `hn` and the
 split `(domain, suffix)`: `domain.suffix` — `suffix` alone when the domain is empty and the suffix
 is the whole stripped hostname —, followed by the trailing dots of `hn` -/
 def rejoinHost (hn domain suffix : Str) : Str :=
